@@ -1,5 +1,5 @@
 import WfProofs.PolicyLemmas
-import WfProofs.PolicyTreeLemmas
+import WfProofs.RpTreeLemmas
 /-!
 # C07 — retry building blocks obey their algebra and bounds
 
@@ -146,12 +146,12 @@ example : (0:Rat) ≤ 1/2 ∧ (1/2:Rat) ≤ 1 := by grind
 /-! ## nested combinators (every tree of `retry_any`/`retry_all`, `stop_any`/`stop_all`, `wait_chain`/`wait_combine`) -/
 
 /-- a tree of `retry_any` / `retry_all` (named or `|` / `&`, any depth, any arity) is the Boolean formula of its leaves -/
-theorem C07_retry_tree_is_formula (t : CTree) (e : Nat) : t.eval e = true ↔ t.Holds e :=
-  CTree.eval_iff_holds t e
+theorem C07_retry_tree_is_formula (t : RCTree) (e : Nat) : t.eval e = true ↔ t.Holds e :=
+  RCTree.eval_iff_holds t e
 
 /-- the same for `stop_any` / `stop_all` trees -/
-theorem C07_stop_tree_is_formula (t : STree) (a : Nat) (el up : Rat) : t.eval a el up = true ↔ t.Holds a el up :=
-  STree.eval_iff_holds t a el up
+theorem C07_stop_tree_is_formula (t : RSTree) (a : Nat) (el up : Rat) : t.eval a el up = true ↔ t.Holds a el up :=
+  RSTree.eval_iff_holds t a el up
 
 /-- operands of the same kind flatten, in any position: `retry_any(*xs, retry_any(*ys), *zs)` is
 `retry_any(*xs, *ys, *zs)`; likewise `retry_all`, `stop_any`, `stop_all`, and `wait_combine` (sum) -/
@@ -379,7 +379,7 @@ theorem C07_default_policy (el : Rat) (k e : Nat) (u : Rat) :
       (if (k : Rat) ≥ dflt_retry_policy_stop_arg then none else some dflt_retry_policy_wait_arg) ∧
     dflt_retry_policy_wait_arg = 5 ∧ dflt_retry_policy_stop_arg = 3 := by
   refine ⟨?_, by decide, by decide⟩
-  simp only [mkPolicy, PTree.eval, Composed.next, Option.getD_none, Option.map_none, WTree.eval, STree.eval, WLeaf.eval,
+  simp only [mkPolicy, PTree.eval, Composed.next, Option.getD_none, Option.map_none, WTree.eval, RSTree.eval, WLeaf.eval,
     SLeaf.eval, waitFixed, stopAfterAttempt]
   split <;> simp_all
 
@@ -388,7 +388,7 @@ theorem C07_constant_delay_policy (n d : Option Rat) (el : Rat) (k e : Nat) (u :
     (mkConstantDelay n d).eval.next el k e u =
       (if (k : Rat) ≥ n.getD dflt_ConstantDelayRetryPolicy_maximum_attempts then none
        else some (d.getD dflt_ConstantDelayRetryPolicy_delay)) := by
-  simp only [mkConstantDelay, PTree.eval, Composed.next, Option.map_none, WTree.eval, STree.eval, WLeaf.eval,
+  simp only [mkConstantDelay, PTree.eval, Composed.next, Option.map_none, WTree.eval, RSTree.eval, WLeaf.eval,
     SLeaf.eval, waitFixed, stopAfterAttempt]
   split <;> simp_all
 
@@ -414,7 +414,7 @@ theorem C07_exp_backoff_policy (n i m mx : Option Rat) (j : Option Bool) (el : R
     cases hjv : j.getD (dflt_ExponentialBackoffRetryPolicy_jitter.getD true) <;>
       simp only [mkExpBackoff, hjv, WTree.hi, WLeaf.hi, hmin1, hmin2, if_true, if_false, Bool.false_eq_true] at hhi <;> grind
   · intro hk
-    simp only [mkExpBackoff, PTree.eval, Composed.next, Option.map_none, STree.eval, SLeaf.eval, stopAfterAttempt]
+    simp only [mkExpBackoff, PTree.eval, Composed.next, Option.map_none, RSTree.eval, SLeaf.eval, stopAfterAttempt]
     simp [hk]
 
 /-- `wait_full_jitter` is `wait_random_exponential` (same defaults, arguments passed on by name); `wait_none()` waits 0 -/
@@ -430,9 +430,9 @@ theorem C07_aliases (m b mx mn : Option Rat) (a : Nat) (u : Rat) :
 
 /-! Non-vacuity of the nested part -/
 -- (a | (b & c)) with a mixed tree: holds of exception 3 through the `all` branch
-example : (CTree.any [.leaf (.excIn [1]), .all [.leaf (.excNotIn [2]), .leaf .always]]).eval 3 = true := by decide
-example : (CTree.any [.leaf (.excIn [1]), .all [.leaf (.excNotIn [2]), .leaf .always]]).eval 2 = false := by decide
-example : (STree.all [.leaf (.afterAttempt 2), .any [.leaf .never, .leaf (.afterDelay 5)]]).eval 3 7 0 = true := by decide
+example : (RCTree.any [.leaf (.excIn [1]), .all [.leaf (.excNotIn [2]), .leaf .always]]).eval 3 = true := by decide
+example : (RCTree.any [.leaf (.excIn [1]), .all [.leaf (.excNotIn [2]), .leaf .always]]).eval 2 = false := by decide
+example : (RSTree.all [.leaf (.afterAttempt 2), .any [.leaf .never, .leaf (.afterDelay 5)]]).eval 3 7 0 = true := by decide
 -- a well-formed three-level wait tree
 example : (WTree.combine [.leaf (.fixed 1), .chain [.leaf (.random 0 1), .combine [.leaf (.fixed 2), .leaf (.random 1 3)]]]).wf = true := by decide
 example : (WTree.combine [.leaf (.fixed 1), .chain [.leaf (.random 0 1), .leaf (.fixed 2)]]).jitterFree = false := by decide
